@@ -8,6 +8,9 @@ pub mod itx {
     #[verifier::external_body]
     #[verifier::reject_recursive_types(T)]
     pub struct SeqIt<T> { v: Vec<T> }
+    /// trigger of the "every position was looked at" clauses: stated for the positions a proof asks about (`assert(mark(j))`),
+    /// so that the positions the "kept" clause mentions do not re-trigger it (a matching loop otherwise)
+    pub open spec fn mark(j: int) -> bool { true }
     /// `idx` picks, in increasing order, positions below n
     pub open spec fn picks(idx: Seq<int>, n: int) -> bool {
         (forall|k: int| 0 <= k < idx.len() ==> 0 <= #[trigger] idx[k] < n)
@@ -17,12 +20,12 @@ pub mod itx {
     pub open spec fn fm_rel<T, U, F: FnMut(T) -> Option<U>>(f: F, s: Seq<T>, o: Seq<U>, idx: Seq<int>) -> bool {
         idx.len() == o.len() && picks(idx, s.len() as int)
         && (forall|k: int| #![trigger o[k]] #![trigger idx[k]] 0 <= k < o.len() ==> f.ensures((s[idx[k]],), Some(o[k])))
-        && (forall|j: int| 0 <= j < s.len() ==> (exists|k: int| 0 <= k < idx.len() && #[trigger] idx[k] == j) || f.ensures((#[trigger] s[j],), None))
+        && (forall|j: int| #[trigger] mark(j) && 0 <= j < s.len() ==> (exists|k: int| 0 <= k < idx.len() && #[trigger] idx[k] == j) || f.ensures((s[j],), None))
     }
     pub open spec fn flt_rel<T, F: FnMut(&T) -> bool>(f: F, s: Seq<T>, o: Seq<T>, idx: Seq<int>) -> bool {
         idx.len() == o.len() && picks(idx, s.len() as int)
         && (forall|k: int| #![trigger o[k]] #![trigger idx[k]] 0 <= k < o.len() ==> o[k] == s[idx[k]] && f.ensures((&s[idx[k]],), true))
-        && (forall|j: int| 0 <= j < s.len() ==> (exists|k: int| 0 <= k < idx.len() && #[trigger] idx[k] == j) || f.ensures((&#[trigger] s[j],), false))
+        && (forall|j: int| #[trigger] mark(j) && 0 <= j < s.len() ==> (exists|k: int| 0 <= k < idx.len() && #[trigger] idx[k] == j) || f.ensures((&s[j],), false))
     }
     pub open spec fn spec_enumerate<T>(s: Seq<T>) -> Seq<(usize, T)> { Seq::new(s.len(), |i: int| (i as usize, s[i])) }
     pub open spec fn spec_refs<'a, T>(s: Seq<T>) -> Seq<&'a T> { Seq::new(s.len(), |i: int| &s[i]) }
